@@ -23,7 +23,7 @@ Transliteration notes (what is *not* a literal copy of the Python):
 * `np.radians x = x * (pi/180)`, `np.degrees x = x * (180/pi)` (numpy's
   definitions), `np.abs`, `np.sign` by comparison with 0 (NaN and the sign of
   zero are not modelled).
-* Python `max(a, b, ...)` keeps the first maximal element.
+* Python `max(a, b, ...)` keeps the first maximal element, `min(a, b)` the first minimal one.
 Core Lean only.
 -/
 namespace Earverif.Conv
@@ -260,8 +260,15 @@ def whd2xyz (width height depth : α) : α × α × α :=
   let ySizeDepth := depth
   (xSizeWidth, pmax3 ySizeWidth ySizeHeight ySizeDepth, zSizeHeight)
 
-/-- `Conversion._xyz2whd(s_x, s_y, s_z)` -/
+/-- Python `min(a, b)` (keeps the first minimal element; `min(NaN, 1.0)` is NaN) -/
+def pmin (a b : α) : α := if b < a then b else a
+
+/-- `Conversion._xyz2whd(s_x, s_y, s_z)`; the first line is the clip `s_x, s_y, s_z = min(s_x, 1.0), min(s_y, 1.0),
+min(s_z, 1.0)` (repo commit bc4a3f0: the size norms can exceed 1 by rounding, `arccos(1 - 2 s_y)` was NaN then). -/
 def xyz2whd (sx sy sz : α) : α × α × α :=
+  let sx := pmin sx (k 1)
+  let sy := pmin sy (k 1)
+  let sz := pmin sz (k 1)
   let widthFromSx := k 2 * degrees (asin sx)
   let widthFromSy := k 2 * degrees (acos (k 1 - k 2 * sy))
   let width := widthFromSx + sx * pmax (widthFromSy - widthFromSx) (k 0)
